@@ -43,6 +43,7 @@ class Gen:
         self.bare = 0.0  # probability that a setup/launch statement is a bare launch on a visible state instead
         self.before = False  # the module holds ANOTHER function of the same form in front of @f (each function is compiled as if alone)
         self.callee = False  # the module DEFINES a function @h that programs the accelerators; @f calls it without annotation
+        self.readcall = 0.0  # probability that a pure-arithmetic statement is instead a call returning a value (impure input of setups)
         self.nested = 0.0  # probability that a loop body is "setup/launch/await of one accelerator, then an inner loop of the same form"
         self._plan = []
         self.ifinput = 0.0  # probability that one field of a setup is computed by an scf.if from a local and an outer computed value
@@ -212,7 +213,11 @@ class Gen:
                 v = self.fresh()
                 a, b = self.r.choice(vals), self.r.choice(vals)
                 op = self.r.choice(["addi", "addi", "muli", "subi"])
-                out.append(f"{ind}{v} = arith.{op} {a}, {b} : i32")
+                if self.readcall and self.r.random() < self.readcall:
+                    out.append(f'{ind}{v} = func.call @r() {{"accfg.effects" = #accfg.effects<none>}} : () -> i32')
+                    vals += [v, v]
+                else:
+                    out.append(f"{ind}{v} = arith.{op} {a}, {b} : i32")
                 vals.append(v)
             elif k < 0.58 and self.nests:
                 out += self.effect_nest(ind, self.r.randint(1, 3))
@@ -315,6 +320,8 @@ class Gen:
             g2.nested, g2.sticky = self.nested, self.sticky
             other = g2.program().split("\n", 1)[1].replace("func.func @f(", "func.func @e(", 1)
             helper += other
+        if self.readcall:
+            helper = "func.func private @r() -> i32\n" + helper
         return ("func.func private @g() -> ()\n" + helper +
                 f"func.func @f({sig}) {{\n"
                 + ("  %lv = arith.constant 1 : i5\n" if self.launch_vals else "")
@@ -601,6 +608,18 @@ def run_op(op: Operation, env, m: Machine):
     elif isinstance(op, accfg.AwaitOp):
         _val(env, op.token)
         m.trace.append(("await", op.token.type.accelerator.data))
+    elif isinstance(op, (func.CallOp,)) and op.results:
+        # a call that returns a value (reads a sensor / a counter): no accfg effects when annotated so, but NOT pure — each
+        # execution returns a fresh value and is an event of the trace (moving, duplicating or dropping it is observable)
+        m.nreads = getattr(m, "nreads", 0) + 1
+        v = -(7000 + 13 * m.nreads)
+        m.trace.append(("read", m.nreads))
+        eff = op.attributes.get("accfg.effects")
+        if eff is None or eff.data != accfg.EffectsEnum.NONE:
+            for k in set(m.regs) | set(m.universe):
+                m.regs[k] = -(CLOB + 500 + m.nreads)
+        for r in op.results:
+            env[r] = v
     elif isinstance(op, (func.CallOp,)):
         eff = op.attributes.get("accfg.effects")
         m.ncalls += 1
